@@ -2,6 +2,8 @@ package checks
 
 import (
 	"fmt"
+	"github.com/remieven/ysgo"
+	"github.com/remieven/ysgo/variable"
 	"math"
 	"strconv"
 	"strings"
@@ -71,6 +73,8 @@ func typedFaults() []fault {
 		{`convv()`, true}, {`convv("a")`, true}, {`convv(1, 2)`, true},
 		// legal oddities: must simply not panic
 		{`convn("a", 1, 2)`, false}, {`convn("a")`, false}, {`convn(1)`, true}, {`convn("a", "b")`, true},
+		// converted functions whose error result is a concrete error type (by value, Errno-like, pointer nil / non-nil)
+		{`everr()`, true}, {`eptr()`, true}, {`eerrno()`, false}, {`eptrnil()`, false}, {`everr2()`, false}, {`eok()`, false},
 		{`conv(1, "a")`, false}, {`convv(1)`, false}, {`convv(1, "a", "b")`, false}, {`string(0/0)`, false}, {`string(1/0)`, false}, {"string(" + numText(1e300) + " * " + numText(1e300) + ")", false},
 		{`bool(0/0)`, false}, {`number("NaN")`, false}, {`number("1e999")`, false}, {`number("0x10")`, false}, {`bool("T")`, false},
 		{`visited("")`, false}, {`visited_count("nowhere")`, false}, {`0/0 == 0/0`, false}, {`(1/0) % 2`, false}, {`2 % 0`, false},
@@ -196,6 +200,18 @@ func c06Setup(r *yc.Real, log *[]string) {
 	r.DR.ConvertAndAddFunction("conv", func(i int, s string) int { return i + len(s) })
 	r.DR.ConvertAndAddFunction("convv", func(i int, rest ...string) string { return fmt.Sprint(i, rest) })
 	r.DR.ConvertAndAddFunction("convn", func(owner myString, coins ...myInt) myInt { return myInt(len(owner) + len(coins)) })
+	c06ErrorFunctions(r)
+}
+
+// c06ErrorFunctions registers converted functions with every shape of concrete error result (registration may
+// refuse some: then calling them is an unknown-function error, which is fine too).
+func c06ErrorFunctions(r *yc.Real) {
+	r.DR.ConvertAndAddFunction("everr", func() valErr { return valErr{"by value"} })
+	r.DR.ConvertAndAddFunction("eptr", func() *myErr { return &myErr{"pointer"} })
+	r.DR.ConvertAndAddFunction("eerrno", func() errno { return errno(0) })
+	r.DR.ConvertAndAddFunction("eptrnil", func() *myErr { return nil })
+	r.DR.ConvertAndAddFunction("everr2", func() (int, valErr) { return 1, valErr{} })
+	r.DR.ConvertAndAddFunction("eok", func() (int, error) { return 1, nil })
 }
 
 // c06Run executes one faulty program: every choice sequence, no call may panic; if mustErrStep is
@@ -239,6 +255,7 @@ func c06Run(ctx *report.Ctx, c *explore.Chooser, partName string, p *yc.Program,
 			r.DR.ConvertAndAddFunction("conv", func(i int, s string) int { return i + len(s) })
 			r.DR.ConvertAndAddFunction("convv", func(i int, rest ...string) string { return fmt.Sprint(i, rest) })
 			r.DR.ConvertAndAddFunction("convn", func(owner myString, coins ...myInt) myInt { return myInt(len(owner) + len(coins)) })
+			c06ErrorFunctions(r)
 		}}
 	mm, st := yc.Walk(p, srcs, c06Host, wo)
 	ctx.AddStates(st.Steps)
@@ -334,6 +351,60 @@ func runC06(ctx *report.Ctx) {
 			body = []*yc.Stmt{yc.Options(&yc.Option{Line: yc.TextLine("o1"), Body: body}, &yc.Option{Line: yc.TextLine("o2")})}
 		}
 		c06Run(ctx, c, "P1-statements", wrapProgram(body), "statement fault", true)
+	})
+	// HC: host configuration includes the state the host restores: snapshots it built itself (a save file holding
+	// only some fields: nil maps) restored before the dialogue runs; every path, continuing after errors: no panic
+	part(ctx, "HC-host-snapshot", -1, func(c *explore.Chooser) {
+		sf := append(statementFaults(), []*yc.Stmt{yc.Jump("B")}, []*yc.Stmt{yc.Set("v", "=", yc.ENumber(1)), yc.JumpE(yc.EBinary("+", yc.EString(""), yc.EString("B")))},
+			[]*yc.Stmt{yc.Options(&yc.Option{Line: yc.TextLine("go"), Body: []*yc.Stmt{yc.Jump("B")}}, &yc.Option{Line: yc.TextLine("again"), Body: []*yc.Stmt{yc.Jump("A")}})})
+		body := sf[c.Choose(len(sf), "body")]
+		node := []string{"A", "B"}[c.Choose(2, "node")]
+		kind := c.Choose(4, "snapshot")
+		when := c.Choose(2, "when")
+		if !c.Mine() {
+			return
+		}
+		p := wrapProgram(body)
+		p.Nodes[1].Body = append(p.Nodes[1].Body, yc.LineOf(&yc.LineSpec{Parts: []yc.Part{{Src: "visits ", Want: "visits "}, {E: yc.ECallOf("visited_count", yc.EString("A"))}}}), yc.Jump("A"))
+		srcs := yc.Render(p, nil)
+		script := scriptOf(srcs)
+		ctx.Current("HC-host-snapshot: " + script)
+		snap := &ysgo.Snapshot{CurrentNode: node}
+		switch kind {
+		case 1:
+			snap.Variables = map[string]variable.Value{}
+		case 2:
+			snap.VisitedNodes = map[string]int{}
+		case 3:
+			snap.Variables, snap.VisitedNodes = map[string]variable.Value{"v": *variable.NewNumber(2)}, map[string]int{"B": 1}
+		}
+		desc := fmt.Sprintf("RestoreAt(host-built snapshot of node %s, kind %d: 0 = both maps nil, 1 = visit counts nil, 2 = variables nil, 3 = both set) %s", node, kind, []string{"before the first Next", "after the first Next"}[when])
+		var restoreErr error
+		var restorePanic any
+		fr := yc.FreeWalk(srcs, yc.FreeOpts{MaxSteps: 9, AfterEnd: 1, Setup: func(r *yc.Real, log *[]string) {
+			c06Setup(r, log)
+			if when == 1 {
+				r.Next(0)
+			}
+			restorePanic = guard(func() { restoreErr = r.DR.RestoreAt(snap) })
+		}})
+		ctx.AddEvals(1, 1)
+		ctx.AddStates(fr.Steps)
+		ctx.AddTransitions(fr.Steps)
+		ctx.AddTraces(fr.Paths)
+		report1 := func(clause, detail string, args []int) {
+			ctx.Violation(report.Violation{Clause: clause, Witness: desc + " :: " + script, Detail: detail, Choices: c.Choices(), Part: "HC-host-snapshot", Extra: map[string]any{"scripts": srcs, "args": args}})
+		}
+		switch {
+		case restorePanic != nil:
+			report1("panic", fmt.Sprintf("RestoreAt panicked: %v", restorePanic), nil)
+		case restoreErr != nil:
+			report1("restore-refused", "RestoreAt of a snapshot naming an existing node failed: "+restoreErr.Error(), nil)
+		case fr.LoadPanic != "" || fr.LoadErr != nil:
+			ctx.HarnessError("HC: script does not load: %v %s\n%s", fr.LoadErr, fr.LoadPanic, script)
+		case fr.Panic != "":
+			report1("panic", fr.Panic, fr.PanicArgs)
+		}
 	})
 	domainPos := pos
 	part(ctx, "P1-domain", -1, func(c *explore.Chooser) {
